@@ -25,13 +25,13 @@ FMT_RULE = ("cases are generated from one splitmix64 state (VERIF_SEED, op, inde
 HOOK_COMMITS = ["94169f7", "6cd8fd8", "2937117", "cd2010e"]
 
 ENGINES = [
-    {"name": "extractor", "path": "extract/", "serves_properties": ["C02", "C03", "C04", "C05", "C06", "C08", "C09", "C10", "C11", "C12", "C01", "C07", "C13", "C14", "C15", "C16", "C17", "C19"],
+    {"name": "extractor", "path": "extract/", "serves_properties": ["C02", "C03", "C04", "C05", "C06", "C08", "C09", "C10", "C11", "C12", "C01", "C07", "C13", "C14", "C15", "C16", "C17", "C19", "C20"],
      "kind_free_text": "Go (go/ast): regenerates lean/Carapace/Gen (replacer tables, character sets, format strings, shell lists) from /repo on every run"},
-    {"name": "lean", "path": "lean/", "serves_properties": ["C02", "C03", "C04", "C05", "C06", "C08", "C09", "C10", "C11", "C12", "C01", "C07", "C13", "C14", "C15", "C16", "C17", "C19"],
+    {"name": "lean", "path": "lean/", "serves_properties": ["C02", "C03", "C04", "C05", "C06", "C08", "C09", "C10", "C11", "C12", "C01", "C07", "C13", "C14", "C15", "C16", "C17", "C19", "C20"],
      "kind_free_text": "Lean 4 library: Model (transcription of the code), Spec (readers, decoders, oracles), Props (theorems); compiled driver lean/Driver"},
-    {"name": "harness", "path": "harness/", "serves_properties": ["C02", "C03", "C04", "C05", "C06", "C08", "C09", "C10", "C11", "C12", "C01", "C07", "C13", "C14", "C15", "C16", "C17", "C19"],
+    {"name": "harness", "path": "harness/", "serves_properties": ["C02", "C03", "C04", "C05", "C06", "C08", "C09", "C10", "C11", "C12", "C01", "C07", "C13", "C14", "C15", "C16", "C17", "C19", "C20"],
      "kind_free_text": "Go module linking the real packages from /repo with -tags verif; generators and in-process execution, one JSON line per case"},
-    {"name": "runner", "path": "check", "serves_properties": ["C02", "C03", "C04", "C05", "C06", "C08", "C09", "C10", "C11", "C12", "C01", "C07", "C13", "C14", "C15", "C16", "C17", "C19"],
+    {"name": "runner", "path": "check", "serves_properties": ["C02", "C03", "C04", "C05", "C06", "C08", "C09", "C10", "C11", "C12", "C01", "C07", "C13", "C14", "C15", "C16", "C17", "C19", "C20"],
      "kind_free_text": "python3 (stdlib): orchestration, known-finding classification by input neutralisation, shrinking, evidence"},
 ]
 
@@ -195,6 +195,21 @@ PROPS.update({
             "level_text": ("`C07_offer_rule` (a flag is offered iff visible, not deprecated, not already given unless repeatable, and no member of its mutually-exclusive groups was given) with its corollaries `C07_hidden_never`, `C07_deprecated_never`, `C07_given_only_if_repeatable`, `C07_mutex`; `C07_chain_accepted` (inside a shorthand series whose letters so far take no argument, appending the shorthand of any existing flag gives a word the parser specification does not reject); the mutex scan counting the flag itself is a decided counterexample. The rule model is compared with the real offer of longhand names on generated trees (changed flags taken from the program's own parse). "
                            "Decided on the real code: every offered flag name, appended (with a value if needed), is accepted by cobra/pflag and sets that very flag; hidden / deprecated flags and sub-commands are never offered; every offered sub-command name dispatches to that very sub-command."),
             "level_note": PARSE_NOTE},
+})
+
+BRIDGE_RULE = ("op bridge: (carapace -> cobra) random invoked results (0-4 candidates whose value, display and description differ, values ending in `/ = :` or a non-ASCII letter, descriptions with tabs, colons and padding; no-space sets empty / single / several / `*` / non-ASCII) handed to cobraValuesFor / cobraDirectiveFor; (cobra -> carapace) every directive 0..63 x value lists (none, extensions, a directory to change into - existing, nested, missing -, 1-3 values with and without tab-separated descriptions) handed to compDirective.ToA and invoked in a scratch directory with known content. "
+               "op ccomplete: random cobra trees (as for C01/C07) whose slots are registered with distinct markers either through carapace (FlagCompletion, Positional/Dash completion) or through cobra's own API (RegisterFlagCompletionFunc, ValidArgsFunction with tab-separated descriptions and NoSpace on odd positions); value positions (`--f <TAB>`, `--f=<TAB>`, `-f <TAB>`, positionals before and after `--`, after earlier flags, in sub-commands) are completed twice on fresh trees: by the real `__complete` protocol and by carapace's own `_carapace export`; non-trivial = something was served; distinct = distinct input digest")
+BRIDGE_NOTE = ("Trusted: Lean kernel + propext/Classical.choice/Quot.sound; cobra v1.9.1 (its `__complete` command is executed, not modelled); the harness and generators; the scratch directory listing expected by the driver. "
+               "Modelled: compat.go (cobraValuesFor, cobraDirectiveFor, compDirective.ToA); which action cobra or carapace selects for a position is decided on the real code only.")
+
+PROPS.update({
+    "C20": {"modules": ["Carapace.Props.C20"], "ops": [("bridge", {"quick": 6000, "thorough": 300000}), ("ccomplete", {"quick": 4000, "thorough": 150000})],
+            "rule": BRIDGE_RULE, "assumptions": ["shell scripts generated by cobra are not executed: the `__complete` output (lines `value<TAB>description` and the final `:directive`) is the observable",
+                                                 "values served through cobra contain no tab (cobra's protocol cannot carry one)"],
+            "claimed": True, "engine": "parse",
+            "level_text": ("Theorems over the model of compat.go: `C20_values` (splitting each served line at the first tab recovers every value with its description, for any description text), `C20_nospace_iff` (NoFileComp always; NoSpace iff some served value ends in a no-space character or the set is `*`), `C20_directive_kind` (for every directive and value list ToA chooses error / directories / extension-filtered files / default files / the described values exactly as the specification read off the property prescribes; `C20_directive_table` is its 64-row instance), `C20_values_from_cobra`, `C20_nospace_honoured_all` (NoSpace is honoured with every non-error directive - true only since fix e3d5247). "
+                           "The model is compared exactly with the real functions (op bridge, both directions; the resulting actions are invoked in a scratch directory), and the end-to-end claim - the same candidates through `__complete` as through carapace itself, for completions registered on either side - is decided on the real code for generated trees and value positions (op ccomplete)."),
+            "level_note": BRIDGE_NOTE},
 })
 
 
